@@ -1,6 +1,9 @@
 import MidnightZK.Proofs.C14.Lagrange
 import MidnightZK.Proofs.C14.Sets
 import MidnightZK.Proofs.C14.EndToEnd
+import MidnightZK.Proofs.C14.EndToEndChopped
+import MidnightZK.Proofs.C14.Sound
+import MidnightZK.Proofs.C14.Dup
 import MidnightZK.Model.C14.Fr
 /-!
 # C14 — KZG multi-opening: correct openings verify, any wrong claim is rejected
@@ -28,6 +31,37 @@ theorem duplicate_query_errors (dflt : E) (qs : List (Query C P E)) :
   construct_none_iff dflt qs
 
 example : constructIntermediateSets (0 : Nat) [⟨1, 5, 7⟩, ⟨2, 5, 8⟩, ⟨1, 5, 9⟩] = none := by decide
+
+/-- Nothing is deduplicated: a query list in which a later query has the (commitment, point) pair
+of an earlier one is refused whatever the two evaluations are — identical (a harmless-looking
+repetition) or different (two claims about the same value). -/
+theorem repeated_pair_refused (dflt : E) (pre mid post : List (Query C P E)) (q q' : Query C P E)
+    (hc : q.com = q'.com) (hp : q.point = q'.point) :
+    constructIntermediateSets dflt (pre ++ q :: (mid ++ q' :: post)) = none :=
+  repeated_pair_none dflt pre mid post q q' hc hp
+
+/-- identical evaluations / different evaluations / the pattern attacked by seed C14-1 (`d@x, d@y,
+c@y, c@x, c@y`: the point indices of `c` are `[1, 0]`, not sorted) -/
+example : constructIntermediateSets (0 : Nat) [⟨1, 5, 7⟩, ⟨1, 5, 7⟩] = none := by decide
+example : constructIntermediateSets (0 : Nat) [⟨1, 5, 7⟩, ⟨2, 6, 1⟩, ⟨1, 5, 8⟩] = none := by decide
+example : constructIntermediateSets (0 : Nat)
+    [⟨"d", 10, 1⟩, ⟨"d", 20, 2⟩, ⟨"c", 20, 99⟩, ⟨"c", 10, 4⟩, ⟨"c", 20, 3⟩] = none := by decide
+
+/-- Commitments are compared as REFERENCES (`CommitmentReference::eq` is `ptr::eq`, piecewise for
+chopped commitments together with `n`): two different entries of the commitment table at the same
+point are two commitments, not a repetition — even if the group elements behind them are equal —
+and a chopped reference differs from a one-piece reference and from a chopped reference with
+another `n` or other pieces. -/
+theorem distinct_references_not_duplicate (i j : Nat) (hij : i ≠ j) (parts : List Nat) (n n' : Nat)
+    (hn : n ≠ n') (p e1 e2 : Nat) :
+    constructIntermediateSets (0 : Nat) [⟨ComRef.one i, p, e1⟩, ⟨ComRef.one j, p, e2⟩] ≠ none ∧
+    constructIntermediateSets (0 : Nat) [⟨ComRef.one i, p, e1⟩, ⟨ComRef.chopped [i] n, p, e2⟩] ≠ none ∧
+    constructIntermediateSets (0 : Nat) [⟨ComRef.chopped parts n, p, e1⟩, ⟨ComRef.chopped parts n', p, e2⟩] ≠ none := by
+  refine ⟨?_, ?_, ?_⟩ <;>
+  · rw [Ne, construct_none_iff, not_not]
+    simp [hij, hn]
+
+example : (2 : Nat) ≠ 3 ∧ (8 : Nat) ≠ 9 := by decide
 
 /-- Specification of the grouping, for every duplicate-free query list:
 * the commitment map lists the distinct commitments in order of first appearance;
@@ -76,6 +110,44 @@ theorem btree_set_spec (l : List Nat) :
   ⟨btreeSet_sorted l, mem_btreeSet l⟩
 
 end grouping
+
+section duplicates
+variable {F : Type} [Zero F] [One F] [Add F] [Sub F] [Neg F] [Mul F] [DecidableEq F]
+
+/-- `multi_prepare` (model, over any scalar type) returns `Err(DuplicatedQuery)` exactly when a
+(commitment reference, point) pair occurs twice in the verifier's query list — whatever the claimed
+evaluations (identical or not), the proof and the challenges; no other step of `multi_prepare`
+produces that error. -/
+theorem multi_prepare_dup_iff (inv : F → F) (dbg : Bool) (qs : List (Query ComRef F F))
+    (proof : ProofView F) (x1 x2 x3 x4 : F) :
+    multiPrepare inv dbg qs proof x1 x2 x3 x4 = .error .dup ↔
+      ¬ (qs.map (fun q => (q.com, q.point))).Nodup :=
+  multiPrepare_dup_iff inv dbg qs proof x1 x2 x3 x4
+
+/-- `multi_open` (model) returns `Err(DuplicatedQuery)` exactly when a (polynomial reference,
+point) pair occurs twice in the prover's query list. -/
+theorem multi_open_dup_iff (nMax : Nat) (polys : List (List F)) (qs : List (Query Nat F F))
+    (x1 x2 x3 x4 : F) :
+    multiOpen nMax polys qs x1 x2 x3 x4 = .error .dup ↔
+      ¬ (qs.map (fun q => (q.com, q.point))).Nodup :=
+  multiOpen_dup_iff nMax polys qs x1 x2 x3 x4
+
+/-- The trace printed for the intermediate-value correspondence (`vtrace` lines: `powers_x1`,
+`q_eval_sets`, every `r_eval`, `f_eval`, `v`, compared with the add-only trace hook inside the real
+`multi_prepare`) is the computation of `prepareGroups`, the function the theorems speak about:
+whenever the trace function returns a trace and `π` is present, `prepareGroups` returns the dual MSM
+whose right-hand side ends with `x₃·π, v·(−G)` for the traced `v`. -/
+theorem prepare_trace_consistent (inv : F → F) (groups : List (List F × List (List (F × Base) × List F)))
+    (proof : ProofView F) (x1 x2 x3 x4 : F) (tr : PrepTrace F)
+    (h : prepareTrace inv groups proof x1 x2 x3 x4 = some tr) (hpi : proof.hasPi = true) :
+    ∃ dual, prepareGroups inv groups proof x1 x2 x3 x4 = .ok dual ∧
+      ∃ pre, dual.right = pre ++ [(x3, Base.pi), (tr.v, Base.negG)] :=
+  prepareTrace_consistent inv groups proof x1 x2 x3 x4 tr h hpi
+
+example : (prepareTrace (F := Fr) Fr.inv [([⟨5⟩], [([(1, Base.com 0)], [⟨7⟩])])] ⟨true, [⟨9⟩], true⟩
+    ⟨2⟩ ⟨3⟩ ⟨4⟩ ⟨6⟩).isSome = true := by decide +kernel
+
+end duplicates
 
 section algebra
 variable {F : Type} [Field F] [DecidableEq F]
@@ -160,6 +232,43 @@ theorem multiopen_complete_queries (nMax : Nat) (hn : 0 < nMax) (s x1 x2 x3 x4 :
 example : ∃ (polys : List (List ℚ)) (pq : List (Nat × ℚ)) (x3 : ℚ), (∀ p ∈ polys, p.length = 2) ∧
     (∀ q ∈ pq, q.1 < polys.length) ∧ pq.Nodup ∧ pq ≠ [] ∧ ∀ q ∈ pq, x3 ≠ q.2 :=
   ⟨[[1, 2], [3, 4]], [(0, 5), (1, 5), (0, 6)], 7, by simp, by simp, by decide, by simp, by simp⟩
+
+/-- **End-to-end completeness for every query-set shape, chopped commitments included.** The
+verifier names the commitment of the prover's polynomial `i` by an arbitrary reference `ref i`
+(distinct polynomials ↦ distinct references), one-piece or chopped, over a commitment table with
+logarithms `dl`. `RefOk`: a one-piece reference names a commitment to the polynomial; a chopped
+reference `(parts, n)`, `n ≠ 0`, is used for a polynomial opened at a single point `x` and
+`Σⱼ (x^(n−1))ʲ·partsⱼ` is a commitment to it (the combined polynomial that
+`vanishing/prover.rs` opens). Then for every table of polynomials with `nMax > 0` coefficients,
+every non-empty duplicate-free list of `(polynomial, point)` queries in any order, every secret
+and all challenges with `x₃` different from the query points: `multi_open` produces a proof,
+`multi_prepare` (with or without debug assertions) returns a dual MSM — in particular the chopped
+commitment is evaluated at the single point of ITS point set, wherever that point first appears in
+the query list (finding C14/89521f2) — and the final pairing check holds. -/
+theorem multiopen_complete_refs (nMax : Nat) (hn : 0 < nMax) (s x1 x2 x3 x4 : F) (dbg : Bool)
+    (ref : Nat → ComRef) (hinj : Function.Injective ref) (dl : Nat → F)
+    (polys : List (List F)) (hlen : ∀ p ∈ polys, p.length = nMax)
+    (pq : List (Nat × F)) (hidx : ∀ q ∈ pq, q.1 < polys.length) (hnd : pq.Nodup) (hne : pq ≠ [])
+    (hx3 : ∀ q ∈ pq, x3 ≠ q.2) (hok : RefOk ref dl s polys pq) :
+    ∃ out dual, multiOpen nMax polys (proverQueries polys pq) x1 x2 x3 x4 = .ok out ∧
+      multiPrepare (fun a => a⁻¹) dbg (verifierQueriesRef ref polys pq) ⟨true, out.qEvals, true⟩ x1 x2 x3 x4 = .ok dual ∧
+      checkLog s (refLog dl s out) dual = true :=
+  multiopen_complete_refs_aux nMax hn s x1 x2 x3 x4 dbg ref hinj dl polys hlen pq hidx hnd hne hx3 hok
+
+/-- Non-vacuity with a chopped reference: `p₀ = 1 + X` (one piece, opened at `5` and `6`) and
+`p₁ = X` at the later point `6`, referred to as the two pieces `k₁, k₂` with `n = 2`
+(`p₁(s) = 2 = dl 1 + 6·dl 2` at `s = 2`). -/
+example : ∃ (ref : Nat → ComRef) (dl : Nat → ℚ) (polys : List (List ℚ)) (pq : List (Nat × ℚ)),
+    Function.Injective ref ∧ (∀ p ∈ polys, p.length = 2) ∧ (∀ q ∈ pq, q.1 < polys.length) ∧ pq.Nodup ∧
+    pq ≠ [] ∧ (∀ q ∈ pq, (7 : ℚ) ≠ q.2) ∧ RefOk ref dl 2 polys pq ∧ ∃ parts n, ref 1 = .chopped parts n := by
+  refine ⟨fun i => if i = 1 then .chopped [1, 2] 2 else .one i, fun i => [3, 2, 0].getD i 0,
+    [[1, 1], [0, 1]], [(0, 5), (0, 6), (1, 6)], ?_, by simp, by simp, by decide, by simp, by norm_num, ?_, [1, 2], 2, by simp⟩
+  · intro a b h
+    simp only at h
+    split at h <;> split at h <;> simp_all
+  · intro q hq
+    simp only [List.mem_cons, List.not_mem_nil, or_false] at hq
+    rcases hq with rfl | rfl | rfl <;> norm_num [evalPoly, powNat]
 
 /-- Non-vacuity: a group over `ℚ` (points `1, 2`; the polynomial `3 + X`; commitment `k₀` with
 logarithm `p(s)` for `s = 7`) is well formed. -/
@@ -258,6 +367,124 @@ theorem chopped_terms_spec (dlog : Base → F) (parts : List Nat) (n : Nat) (hn 
   simpa [msmLog] using this
 
 example : ∃ (parts : List Nat) (n : Nat), n ≠ 0 ∧ parts ≠ [] := ⟨[0, 1], 8, by decide, by simp⟩
+
+/-- `evals_inner_product(evals_set, powers(x₁).take(n))` for ANY claimed evaluation vectors of a
+common length `L` (what the grouping produces for a set of `L` points): position `t` holds
+`Σⱼ evalsⱼ[t]·x₁ʲ`. -/
+theorem evals_inner_product_spec (x : F) (L : Nat) (Es : List (List F)) (hE : Es ≠ [])
+    (hlen : ∀ e ∈ Es, e.length = L) (n : Nat) (hn : Es.length ≤ n) :
+    evalsInnerProduct Es (powersN x n 1) =
+      some ((List.range L).map (fun t => evalPoly (Es.map (fun e => e.getD t 0)) x)) :=
+  evalsInnerProduct_general x L Es hE hlen n hn
+
+example : ∃ (Es : List (List ℚ)), Es ≠ [] ∧ (∀ e ∈ Es, e.length = 2) ∧ Es.length ≤ 3 :=
+  ⟨[[1, 2], [3, 4]], by simp, by simp, by simp⟩
+
+/-- The verifier's `f_eval` is a Horner fold in `x₂`: for ANY claimed data, whenever
+`lagrange_interpolate` returns `r pe` for every set and `x₃` is outside the point sets,
+`f_eval = Σᵢ x₂ⁱ·(proof_evalᵢ − rᵢ(x₃))/∏_{p ∈ Sᵢ}(x₃ − p)` (set 0 has weight 1: the fold runs
+from the last set to the first). -/
+theorem f_eval_is_horner_fold (x2 x3 : F)
+    (L : List (((List F × List (List (F × Base) × List F)) × List F) × F))
+    (r : (((List F × List (List (F × Base) × List F)) × List F) × F) → List F)
+    (hr : ∀ pe ∈ L, lagrangeInterpolate (fun (a : F) => a⁻¹) pe.1.1.1 pe.1.2 = some (r pe))
+    (hx : ∀ pe ∈ L, x3 ∉ pe.1.1.1) :
+    L.foldr (fEvalStep (fun (a : F) => a⁻¹) x2 x3) (some 0) =
+      some (evalPoly (L.map (fun pe => (pe.2 - evalPoly (r pe) x3) *
+        (pe.1.1.1.foldl (fun a p => a * (x3 - p)) 1)⁻¹)) x2) :=
+  fEvalStep_fold _ x2 x3 L r hr hx
+
+/-- **Soundness, step `x₁`, with the exact count.** One point set `S` with polynomials `pⱼ` (all
+of `nMax` coefficients) and claimed evaluation vectors `eⱼ` (`|eⱼ| = |S|`). If one claimed
+evaluation is wrong (`eⱼ[t] ≠ pⱼ(S[t])`), then for all `x₁` outside a set of at most
+`#polynomials − 1` values: `inner_product` returns the folded polynomial `q`,
+`evals_inner_product` returns the folded claims `es`, and `es[t] ≠ q(S[t])` — the wrong claim
+survives the fold (so the interpolant `r` of `es` differs from `q` at `S[t]`). -/
+theorem x1_fold_sound_count (S : List F) (pe : List (List F × List F)) (nMax : Nat)
+    (hpl : ∀ p ∈ pe, p.1.length = nMax) (hel : ∀ p ∈ pe, p.2.length = S.length)
+    (t : Nat) (ht : t < S.length)
+    (hwrong : ∃ p ∈ pe, p.2.getD t 0 ≠ evalPoly p.1 (S.getD t 0)) :
+    ∃ bad : Finset F, bad.card ≤ pe.length - 1 ∧
+      ∀ x1, x1 ∉ bad → ∀ nb, pe.length ≤ nb →
+        ∃ q es, innerProduct (pe.map (·.1)) x1 = some q ∧
+          evalsInnerProduct (pe.map (·.2)) (powersN x1 nb 1) = some es ∧
+          es.length = S.length ∧ es.getD t 0 ≠ evalPoly q (S.getD t 0) :=
+  x1_fold_sound_count_aux S pe nMax hpl hel t ht hwrong
+
+/-- non-vacuity and tightness: `p₀ = 1`, `p₁ = X` at the point `2`, claims `2` (wrong) and `2`
+(right): the folded claim `2 + 2x₁` equals the folded value `1 + 2x₁` for no `x₁`; with the claims
+`2` and `1` (both wrong) they agree exactly at `x₁ = 1`. -/
+example : ∃ (S : List ℚ) (pe : List (List ℚ × List ℚ)), (∀ p ∈ pe, p.1.length = 2) ∧
+    (∀ p ∈ pe, p.2.length = S.length) ∧ ∃ p ∈ pe, p.2.getD 0 0 ≠ evalPoly p.1 (S.getD 0 0) :=
+  ⟨[2], [([1, 0], [2]), ([0, 1], [2])], by simp, by simp, ([1, 0], [2]), by simp, by norm_num [evalPoly]⟩
+
+/-- `Z_U = Z_S·(Z_U/Z_S)` for `S ⊆ U` without repetitions: the identity of
+`x2_fold_not_polynomial_count` is `f = Σᵢ x₂ⁱ·(qᵢ − rᵢ)/Z_{Sᵢ}` with denominators cleared. -/
+theorem vanishing_split_spec (U S : List F) (hU : U.Nodup) (hS : S.Nodup) (hsub : ∀ p ∈ S, p ∈ U) :
+    vanishing U = vanishing S * coVanishing U S :=
+  vanishing_split U S hU hS hsub
+
+/-- **Soundness, step `x₂`, with the exact count.** Sets `(Sᵢ, qᵢ, rᵢ)` (points, `x₁`-folded
+polynomial, interpolant of the `x₁`-folded claims); `U` contains all the points. If for one set
+`rᵢ` differs from `qᵢ` at a point of `Sᵢ`, then for all `x₂` outside a set of at most `#sets − 1`
+values NO polynomial `f` satisfies `f·Z_U = Σᵢ x₂ⁱ·(qᵢ − rᵢ)·Z_U/Z_{Sᵢ}`: the function
+`Σᵢ x₂ⁱ·(qᵢ − rᵢ)/Z_{Sᵢ}` the prover must commit to as `f_com` is not a polynomial.
+(`wrong_eval_not_divisible` is the case of one set.) -/
+theorem x2_fold_not_polynomial_count (U : List F) (gs : List (List F × List F × List F))
+    (hsub : ∀ g ∈ gs, ∀ p ∈ g.1, p ∈ U)
+    (hwrong : ∃ g ∈ gs, ∃ z ∈ g.1, evalPoly g.2.2 z ≠ evalPoly g.2.1 z) :
+    ∃ bad : Finset F, bad.card ≤ gs.length - 1 ∧
+      ∀ x2, x2 ∉ bad → ¬ ∃ f : F[X], f * vanishing U = fNumerator U x2 gs :=
+  x2_fold_not_polynomial_count_aux U gs hsub hwrong
+
+example : ∃ (U : List ℚ) (gs : List (List ℚ × List ℚ × List ℚ)), (∀ g ∈ gs, ∀ p ∈ g.1, p ∈ U) ∧
+    ∃ g ∈ gs, ∃ z ∈ g.1, evalPoly g.2.2 z ≠ evalPoly g.2.1 z :=
+  ⟨[1, 2], [([1], [0, 1], [1]), ([1, 2], [1, 1], [5])], by simp, ([1, 2], [1, 1], [5]), by simp, 1, by simp,
+    by norm_num [evalPoly]⟩
+
+/-- The same identity holds for the honest prover at EVERY `x₂` (the formulation is not vacuous):
+when each `rᵢ` (at most `|Sᵢ|` coefficients) agrees with `qᵢ` on `Sᵢ`, the polynomial
+`Σᵢ x₂ⁱ·kateFold(qᵢ, Sᵢ)` that `multi_open` commits to satisfies it. -/
+theorem x2_fold_complete (U : List F) (hU : U.Nodup) (x2 : F)
+    (gs : List (List F × List F × List F))
+    (hsub : ∀ g ∈ gs, ∀ p ∈ g.1, p ∈ U) (hnd : ∀ g ∈ gs, g.1.Nodup)
+    (hr : ∀ g ∈ gs, g.2.2.length ≤ g.1.length)
+    (hagree : ∀ g ∈ gs, ∀ z ∈ g.1, evalPoly g.2.2 z = evalPoly g.2.1 z) :
+    combo x2 (gs.map (fun g => kateFold g.2.1 g.1)) * vanishing U = fNumerator U x2 gs :=
+  x2_fold_polynomial_of_right U hU x2 gs hsub hnd hr hagree
+
+/-- **Soundness, step `x₃`, with the exact count.** Whatever polynomial `f` (of at most `nMax`
+coefficients) is behind `f_com`: if it does not satisfy the identity of the `x₂` step, then for
+all `x₃ ∉ U` outside a set of at most `nMax − 1 + |U|` values, `f(x₃)` differs from the `f_eval`
+the verifier computes (`f_eval_is_horner_fold`) from the true values `qᵢ(x₃)`. -/
+theorem x3_identity_sound_count (U : List F) (hU : U.Nodup) (x2 : F) (nMax : Nat)
+    (gs : List (List F × List F × List F))
+    (hsub : ∀ g ∈ gs, ∀ p ∈ g.1, p ∈ U) (hnd : ∀ g ∈ gs, g.1.Nodup)
+    (hq : ∀ g ∈ gs, g.2.1.length ≤ nMax) (hr : ∀ g ∈ gs, g.2.2.length ≤ nMax)
+    (f : F[X]) (hf : f.natDegree ≤ nMax - 1) (hne : f * vanishing U ≠ fNumerator U x2 gs) :
+    ∃ bad : Finset F, bad.card ≤ nMax - 1 + U.length ∧
+      ∀ x3, x3 ∉ bad → x3 ∉ U →
+        f.eval x3 ≠ evalPoly (gs.map (fun g => (evalPoly g.2.1 x3 - evalPoly g.2.2 x3) *
+          (g.1.foldl (fun a p => a * (x3 - p)) 1)⁻¹)) x2 := by
+  obtain ⟨bad, hcard, h⟩ := x3_identity_sound_count_aux U hU x2 gs hsub hnd f hne
+  exact ⟨bad, le_trans hcard (x3_degree_bound U x2 nMax gs hq hr f hf), h⟩
+
+example : ∃ (U : List ℚ) (gs : List (List ℚ × List ℚ × List ℚ)) (f : ℚ[X]), U.Nodup ∧
+    f * vanishing U ≠ fNumerator U 1 gs :=
+  ⟨[], [], 1, by simp, by simp [vanishing, fNumerator]⟩
+
+/-- **Soundness, step `x₄`, with the exact count.** If the `#sets + 1` values the verifier folds
+into `v` (the `q_evals_on_x3` read from the proof, then `f_eval`) are not the values at `x₃` of the
+polynomials folded into the final polynomial (`q₀ … q_{m−1}`, `f`), then for all `x₄` outside a set
+of at most `#sets` values the verifier's `v` is not the value of the final polynomial at `x₃` —
+and then, by `pi_unique`, no witness polynomial `π` exists for `v`. -/
+theorem x4_fold_sound_count (claimed truth : List F) (hlen : claimed.length = truth.length)
+    (hne : claimed ≠ truth) :
+    ∃ bad : Finset F, bad.card ≤ claimed.length - 1 ∧
+      ∀ x4, x4 ∉ bad → evalPoly claimed x4 ≠ evalPoly truth x4 :=
+  x4_fold_sound_count_aux claimed truth hlen hne
+
+example : ([1, 2] : List ℚ).length = [1, 3].length ∧ ([1, 2] : List ℚ) ≠ [1, 3] := by decide
 
 end algebra
 
